@@ -28,3 +28,11 @@ let cmd_ops (t : toks) (buf : Buffer.t) : unit =
 
 
 let () = register "bounds" cmd_bounds; register "ops" cmd_ops
+
+(* structure <n> : the relation matrix, row by row *)
+let int_of_z (x : z) : int = match x with Z0 -> 0 | Zpos p -> int_of_pos p | Zneg p -> - (int_of_pos p)
+let cmd_structure (t : toks) (buf : Buffer.t) : unit =
+  let n = next_int t in
+  List.iter (fun row -> List.iter (fun x -> add buf (string_of_int (int_of_z x)); add buf " ") row; add buf "| ")
+    (st_matrix (nat_of_int n))
+let () = register "structure" cmd_structure
